@@ -1130,4 +1130,110 @@ def requestBodyDetailed (j : Json) : RBRes :=
     shSkipped := getOr (pget props kShardsSkipped) pyZero,
     shFailed := getOr (pget props kShardsFailed) pyZero }
 
+/-! ## Objects and sessions: several calls on the SAME extractor / runner instance
+
+Rally registers one runner instance per operation type and `Query.__init__` creates one `SearchAfterExtractor`
+and one `CompositeAggExtractor` per `Query`; all tasks of that type (and all clients of a worker) share them.
+`session` runs a list of calls on one instance, threading the instance state.  The instance attributes of the
+extractors (`sort_pattern`, `decoder`) and of `BulkIndex` / `Query` (`logger`, serverless flags, the two
+extractors) are assigned in `__init__` and never again: the modelled state is `Unit`.
+
+The only thing the page loops leave behind is in the *request body* of the operation, which the parameter
+source hands out again for the next invocation of the same task (`SearchParamSource.params` returns the same
+dict): `body["search_after"]` resp. `composite["after"]` are removed when the loop stops because there are no
+more results, but stay when it stops because `pages` is reached. -/
+
+def session {σ α β : Type} (call : σ → α → σ × β) : σ → List α → List β
+  | _, [] => []
+  | s, a :: rest => (call s a).2 :: session call (call s a).1 rest
+
+structure SaxCall where
+  pit : Bool
+  hitsTotal : PVal
+  resp : Json
+
+/-- `SearchAfterExtractor.__call__` on an instance -/
+def saxCallOn (st : Style) (s : Unit) (c : SaxCall) : Unit × Except Err (List (Option Str × PVal) × Option Json) :=
+  (s, searchAfterExtract st c.pit c.hitsTotal c.resp)
+
+structure CaxCall where
+  pit : Bool
+  path : List Str
+  hitsTotal : PVal
+  resp : Json
+
+/-- `CompositeAggExtractor.__call__` on an instance -/
+def caxCallOn (s : Unit) (c : CaxCall) : Unit × Except Err (List (Option Str × PVal)) :=
+  (s, compositeExtract c.pit c.path c.hitsTotal c.resp)
+
+structure BulkCall where
+  detailed : Bool
+  bulkSize : Int
+  unitDocs : Bool
+  resp : Json
+
+/-- `BulkIndex.detailed_stats` / `simple_stats` on an instance -/
+def bulkCallOn (s : Unit) (c : BulkCall) : Unit × Except Err BulkStats :=
+  (s, if c.detailed then detailedStats c.resp else simpleStats c.bulkSize c.unitDocs c.resp)
+
+structure ParseCall where
+  props : List Str
+  lists : List Str
+  objs : List Str
+  resp : Json
+
+/-- `runner.parse` (a module-level function: no instance at all) -/
+def parseCallOn (s : Unit) (c : ParseCall) : Unit × List (Option Str × PVal) :=
+  (s, parseSel c.props c.lists c.objs (events [] c.resp))
+
+/-- what an invocation of `_search_after_query` / `_composite_agg` finds in and leaves in the request body:
+    `none` = key absent -/
+abbrev BodyLeft := Option (Option Json)
+abbrev AfterLeft := Option PVal
+
+def lastOpt {α : Type} : List α → Option α
+  | [] => none
+  | [a] => some a
+  | _ :: b :: r => lastOpt (b :: r)
+
+/-- the cursor left in the body after the loop: removed if the loop stopped for lack of results (one cursor
+    less than pages), otherwise the last one assigned (or what was there, if none was assigned) -/
+def saLeftAfter (left : BodyLeft) (acc : PageAcc) : BodyLeft :=
+  if acc.cursors.length = acc.pages then
+    match lastOpt acc.cursors with
+    | some c => some c
+    | none => left
+  else none
+
+def caLeftAfter (left : AfterLeft) (acc : PageAcc) : AfterLeft :=
+  if acc.afters.length = acc.pages then
+    match lastOpt acc.afters with
+    | some c => some c
+    | none => left
+  else none
+
+structure SaQCall where
+  pit : Bool
+  size : Nat
+  total : Nat
+  resps : List Json
+
+/-- one invocation of a paginated-search task on the shared body: (what is left in the body,
+    (result, `search_after` of the FIRST request = what the previous invocation left)) -/
+def saQueryOn (st : Style) (left : BodyLeft) (c : SaQCall) : BodyLeft × (Except Err PageAcc × BodyLeft) :=
+  match searchAfterQuery st c.pit c.size c.total c.resps with
+  | .ok acc => (saLeftAfter left acc, (.ok acc, left))
+  | .error e => (left, (.error e, left))
+
+structure CaQCall where
+  pit : Bool
+  path : List Str
+  total : Nat
+  resps : List Json
+
+def caQueryOn (left : AfterLeft) (c : CaQCall) : AfterLeft × (Except Err PageAcc × AfterLeft) :=
+  match compositeQuery c.pit c.path c.total c.resps with
+  | .ok acc => (caLeftAfter left acc, (.ok acc, left))
+  | .error e => (left, (.error e, left))
+
 end JsonFast
